@@ -655,6 +655,34 @@ class Check:
         return 0
 
 
+def crash_site(output):
+    """If the harness process was ended by a Go panic/fatal error raised INSIDE the code under test (first frame below the
+    runtime is a function of github.com/aergoio/aergo/v2 that is not harness code), return (message, "func file:line").
+    A process killed by such a panic in a goroutine of the real code is real-code behaviour (the node would die the same
+    way); anything else (harness bug, OOM, timeout) stays a dead driver."""
+    lines = output.splitlines()
+    for i, l in enumerate(lines):
+        if l.startswith("panic: ") or l.startswith("fatal error: "):
+            msg = l.strip()
+            j = i + 1
+            while j < len(lines) and not lines[j].startswith("goroutine "):
+                j += 1
+            k = j + 1
+            while k + 1 < len(lines):
+                fn, loc = lines[k].strip(), lines[k + 1].strip()
+                if not fn or fn.startswith("goroutine "):
+                    break
+                if fn.startswith(("panic(", "runtime.", "runtime/", "testing.", "created by")):
+                    k += 2
+                    continue
+                f = loc.split(" ")[0]
+                if "github.com/aergoio/aergo/v2" in fn and "/verif" not in f and "verif_" not in os.path.basename(f) and "Verif" not in fn:
+                    return msg, "%s %s" % (fn.rsplit("(", 1)[0], re.sub(r"^.*?/(?=(pkg|chain|state|types|contract|consensus|mempool|p2p|syncer|internal)/)", "", f))
+                return None
+            return None
+    return None
+
+
 def run_check(pid, level, fn):
     """Entry point used by bin/vcheck: wraps fn(check) with the exit-code contract."""
     try:
